@@ -1,15 +1,27 @@
 (** C08 — Keys identify projected tuples; projections plus residue lose nothing.
     Statements only; proofs are in Proofs/Key.v, Proofs/Projection.v,
     Proofs/Exclusion.v, Proofs/KeyGet.v, Proofs/Lossless.v, Proofs/LosslessNames.v,
-    Proofs/LosslessExec.v, Proofs/LosslessUnits.v, Proofs/LosslessUnitsExec.v.
+    Proofs/LosslessExec.v, Proofs/LosslessUnits.v, Proofs/LosslessUnitsExec.v,
+    Proofs/ProjectionTx.v.
+
+    Two drivers. [run_ops] (Model/Projection.v) is the code AS IT IS: a Parse
+    call that returns an error has already recorded the keys of the fields before
+    the offending one in the parser, which loses information
+    (C08_failed_parse_loses: a defect, repaired by
+    hooks/fix_c08_failed_parse_rollback.diff). [run_ops_tx] (Model/ProjectionTx.v)
+    is the REPAIRED code: a failing Parse call restores the parser. The theorems
+    of the section "the repaired Parse" at the end state the property for
+    [run_ops_tx] over ALL streams of Parse calls, failing ones included; the
+    correspondence run compares the real code with [run_ops_tx].
+
     The model (Model/Projection.v, Model/Key.v) is driven by
     arbitrary streams [ops] of API calls on one ProjectionParser: Parse /
     ParseWithUnit (already-parsed fields, failing calls included), Residue,
     Project, ProjectValues, in any interleaving. A Key is the position of its
     keyNode in the projection's list of interned rows (Go: pointer identity). *)
-From Perf Require Import Base.Bytes Model.Name Model.Extract Model.Key Model.Projection
+From Perf Require Import Base.Bytes Model.Name Model.Extract Model.Key Model.Projection Model.ProjectionTx
   Proofs.Key Proofs.Projection Proofs.Exclusion Proofs.KeyGet Proofs.Lossless Proofs.LosslessNames
-  Proofs.LosslessExec Proofs.LosslessUnits Proofs.LosslessUnitsExec.
+  Proofs.LosslessExec Proofs.LosslessUnits Proofs.LosslessUnitsExec Proofs.ProjectionTx.
 
 (** intern_inv (1): after any stream of calls, in every projection the interned
     rows are pairwise distinct, carry no trailing empty string, and are no longer
@@ -445,9 +457,12 @@ Proof.
   - intros k [<-|[]]. vm_compute. lia.
 Qed.
 
-(** a Parse call that returned an error has already recorded "goos" in the
-    parser: the residue leaves it out and no projection carries it, so results
-    differing in goos get equal Keys. [call_ok] is needed. *)
+(** DEFECT of the code as it is (refutes the property on a history with a failing
+    Parse): a Parse call that returned an error has already recorded "goos" in
+    the parser: the residue leaves it out and no projection carries it, so
+    results differing in goos get equal Keys. For [run_ops], [call_ok] is needed;
+    the repaired Parse ([run_ops_tx]) does not need it
+    (C08_projections_plus_residue_lossless_any_calls, C08_failed_parse_judged). *)
 Definition fw_a : result := mkR (bs "F") [mkCfg (bs "goos") (bs "linux") true] [].
 Definition fw_b : result := mkR (bs "F") [mkCfg (bs "goos") (bs "darwin") true] [].
 Example C08_failed_parse_loses :
@@ -462,9 +477,17 @@ Proof.
   - split; [reflexivity|]. intros H. specialize (H (bs "goos")). vm_compute in H. discriminate H.
 Qed.
 
-(** the theorem is about streams in which all Parse calls come first (the code's
-    own assumption: "this closure doesn't get called until we've parsed all
-    projections"). A Project before a later Parse leaves a sub-field for a key
+(** the theorem is about streams in which all Parse calls come first. That is the
+    contract: the property quantifies over "sets of projection expressions parsed
+    in every order, and all streams of results" and names the mechanism
+    ("closures reading parser state after all parsing"); benchproc's package
+    documentation has the projections produced before the results are
+    projected, and projection.go states it where the exclusions are read ("this
+    closure doesn't get called until we've parsed all projections", "we delay
+    constructing the extractor until we process the first Result"). "Irrespective
+    of the order in which they were parsed" is the order of the Parse calls among
+    themselves (C08_exclusion_order_independent). Outside that contract:
+    a Project before a later Parse leaves a sub-field for a key
     that the later Parse excludes; that stale sub-field then compares FILE values
     where clause (i) compares looked-up values: the Keys of ".config" differ
     although [same_info] holds. *)
@@ -714,4 +737,160 @@ Proof.
   split; [reflexivity|]. intros [[H _] _].
   assert (Hin : In (bs "goos") (pp_cfg (parser_after [(true, [ex_goos])]))) by (vm_compute; auto).
   specialize (H _ Hin). vm_compute in H. discriminate H.
+Qed.
+
+(** ** the repaired Parse (hooks/fix_c08_failed_parse_rollback.diff)
+
+    [run_ops_tx]: as [run_ops], except that a Parse / ParseWithUnit call that
+    returns an error leaves the parser as it was. Whether a call fails depends
+    on the expression alone ([call_okb]; C08_parse_proj_indep). *)
+Theorem C08_call_okb_spec : forall c, call_okb c = true <-> call_ok c.
+Proof. exact call_okb_spec. Qed.
+Print Assumptions C08_call_okb_spec.
+
+(** a stream without failing Parse calls behaves as before, outputs included *)
+Theorem C08_repaired_same_without_failures : forall ops w,
+  forallb keeps ops = true -> run_ops_tx w ops = run_ops w ops.
+Proof. exact run_ops_tx_same. Qed.
+Print Assumptions C08_repaired_same_without_failures.
+
+(** any stream reaches the world that the stream without its failing Parse
+    calls reaches: a rejected expression leaves no trace *)
+Theorem C08_repaired_world : forall ops w,
+  fst (run_ops_tx w ops) = fst (run_ops w (filter keeps ops)).
+Proof. exact run_ops_tx_world. Qed.
+Print Assumptions C08_repaired_world.
+
+Theorem C08_failed_parse_no_trace : forall calls,
+  w_pp (fst (run_ops_tx new_world (parse_ops calls))) = parser_after (filter call_okb calls).
+Proof. exact parser_after_tx. Qed.
+Print Assumptions C08_failed_parse_no_trace.
+
+(** exclusion is independent of the order and repetition of the Parse calls,
+    failing ones included *)
+Theorem C08_exclusion_order_independent_repaired : forall calls1 calls2,
+  (forall c, In c calls1 <-> In c calls2) ->
+  pp_equiv (w_pp (fst (run_ops_tx new_world (parse_ops calls1))))
+           (w_pp (fst (run_ops_tx new_world (parse_ops calls2)))).
+Proof. exact exclusion_order_independent_tx. Qed.
+Print Assumptions C08_exclusion_order_independent_repaired.
+
+(** the first sentence of the property, for every stream of calls (Parse calls
+    interleaved with projections, failing ones included) *)
+Theorem C08_intern_inv_repaired : forall ops w xs,
+  run_ops_tx new_world ops = (w, xs) ->
+  forall p, In p (w_projs w) ->
+    NoDup (p_keys p) /\
+    forall r, In r (p_keys p) -> trimmed r /\ (r <> [] -> last r [] <> []) /\ length r <= nfields p.
+Proof. exact intern_inv_tx. Qed.
+Print Assumptions C08_intern_inv_repaired.
+
+Theorem C08_key_eq_iff_values_repaired : forall ops w xs pi p k1 k2,
+  run_ops_tx new_world ops = (w, xs) -> nth_error (w_projs w) pi = Some p ->
+  k1 < length (p_keys p) -> k2 < length (p_keys p) ->
+  (k1 = k2 <-> forall idx, idx < nfields p -> key_get p k1 idx = key_get p k2 idx).
+Proof. exact key_eq_iff_values_tx. Qed.
+Print Assumptions C08_key_eq_iff_values_repaired.
+
+Theorem C08_key_get_extracted_repaired : forall ops w xs pi p r,
+  Forall op_wf ops -> run_ops_tx new_world ops = (w, xs) -> nth_error (w_projs w) pi = Some p ->
+  NoDup (map c_key (r_cfg r)) ->
+  let '(pp', p', k) := project (w_pp w) p r in
+  forall idx f, nth_error (p_fields p') idx = Some f ->
+    match fi_src f with
+    | SKey key => fi_name f = key /\ key_get p' k idx = extract key (r_name r) (r_cfg r)
+    | SFull => key_get p' k idx = extractor_fullname (ext_of (w_pp w)) (r_name r)
+    | SCfg => key_get p' k idx = cfg_file_val (r_cfg r) (fi_name f)
+    | SUnit => key_get p' k idx = []
+    end.
+Proof. exact key_get_extracted_tx. Qed.
+Print Assumptions C08_key_get_extracted_repaired.
+
+(** projections plus residue lose nothing, for ANY Parse calls [calls] - in any
+    order, repeated, failing ones included - followed by Residue and any stream
+    [rest] of Project / ProjectValues / Residue calls. [good] = the calls that
+    returned a projection; the projections are numbered 0 .. length good - 1,
+    the residue is number [length good]; C and E are the keys named in [good].
+    No [call_ok] hypothesis. ([Forall no_parse rest]: all Parse calls precede
+    the first Project - the contract, see C08_parse_after_project_witness.) *)
+Theorem C08_projections_plus_residue_lossless_any_calls :
+  forall calls rest a b (ia ib ka kb : nat -> nat),
+  Forall no_parse rest -> Forall op_wf rest ->
+  let good := filter call_okb calls in
+  let pa := parser_after good in
+  let w0 := fst (run_ops_tx new_world (parse_ops calls ++ [OpResidue])) in
+  let xs := snd (run_ops_tx w0 rest) in
+  (forall pi, pi <= length good ->
+     nth_error rest (ia pi) = Some (OpProject pi a) /\ nth_error xs (ia pi) = Some (OutKeys [ka pi]) /\
+     nth_error rest (ib pi) = Some (OpProject pi b) /\ nth_error xs (ib pi) = Some (OutKeys [kb pi])) ->
+  ((forall pi, pi <= length good -> ka pi = kb pi) <-> same_info (pp_cfg pa) (pp_full pa) a b).
+Proof. exact projections_plus_residue_lossless_tx. Qed.
+Print Assumptions C08_projections_plus_residue_lossless_any_calls.
+
+Theorem C08_projections_plus_residue_lossless_units_any_calls :
+  forall calls rest a b (ia ib : nat -> nat) (ka kb : nat -> list nat),
+  Forall no_parse rest -> Forall op_wf rest ->
+  let good := filter call_okb calls in
+  let w0 := fst (run_ops_tx new_world (parse_ops calls ++ [OpResidue])) in
+  let xs := snd (run_ops_tx w0 rest) in
+  (forall pi, pi <= length good ->
+     nth_error rest (ia pi) = Some (proj_op good pi a) /\ nth_error xs (ia pi) = Some (OutKeys (ka pi)) /\
+     nth_error rest (ib pi) = Some (proj_op good pi b) /\ nth_error xs (ib pi) = Some (OutKeys (kb pi))) ->
+  (existsb fst good = true -> r_units a <> [] \/ r_units b <> []) ->
+  ((forall pi, pi <= length good -> ka pi = kb pi) <-> same_info_units good a b).
+Proof. exact projections_plus_residue_lossless_units_tx. Qed.
+Print Assumptions C08_projections_plus_residue_lossless_units_any_calls.
+
+(** group contents: every specific key named in any RETURNED projection is left
+    out of every .config group, every other file key of the result has its
+    sub-field, every field holds what its extractor yields *)
+Theorem C08_group_contents_any_calls : forall calls rest i pi r k,
+  Forall no_parse rest -> Forall op_wf rest ->
+  let pa := parser_after (filter call_okb calls) in
+  let w0 := fst (run_ops_tx new_world (parse_ops calls ++ [OpResidue])) in
+  nth_error rest i = Some (OpProject pi r) ->
+  nth_error (snd (run_ops_tx w0 rest)) i = Some (OutKeys [k]) ->
+  exists pF, nth_error (w_projs (fst (run_ops_tx w0 rest))) pi = Some pF /\ k < length (p_keys pF) /\
+    (forall idx f, nth_error (p_fields pF) idx = Some f -> key_get pF k idx = want (pp_full pa) r f) /\
+    (forall g o c, In (PConfig g o) (p_items pF) ->
+       In c (r_cfg r) -> c_file c = true -> ~ In (c_key c) (pp_cfg pa) ->
+       exists j, In j (group_subs pF g) /\ field_name pF j = c_key c /\ key_get pF k j = c_val c) /\
+    (forall g j, In j (group_subs pF g) -> ~ In (field_name pF j) (pp_cfg pa)).
+Proof. exact group_contents_tx. Qed.
+Print Assumptions C08_group_contents_any_calls.
+
+(** the audit witness, evaluated: "goos,.unit" (rejected), ".fullname", Residue,
+    two results differing in the file key goos only. The judge applied to free
+    histories (Corr/RunC08.v [free_ok], computed from the inputs) REJECTS what
+    the code as it is produces (all four Keys equal: goos is lost) and accepts
+    what the repaired code produces (the residue tells the results apart). *)
+Definition fx_ops : list op :=
+  [OpParse false [ex_goos; mkPS key_unit (bs "first") []]; OpParse false [mkPS key_fullname (bs "first") []];
+   OpResidue; OpProject 0 fw_a; OpProject 1 fw_a; OpProject 0 fw_b; OpProject 1 fw_b].
+
+Example C08_failed_parse_judged :
+  (let '(outs, obs) := Perf.Corr.RunC08.model_obs run_ops fx_ops in
+   Perf.Corr.RunC08.free_ok fx_ops outs obs) = false /\
+  (let '(outs, obs) := Perf.Corr.RunC08.model_obs run_ops_tx fx_ops in
+   Perf.Corr.RunC08.free_ok fx_ops outs obs) = true /\
+  skipn 3 (snd (run_ops new_world fx_ops)) = [OutKeys [0]; OutKeys [0]; OutKeys [0]; OutKeys [0]] /\
+  skipn 3 (snd (run_ops_tx new_world fx_ops)) = [OutKeys [0]; OutKeys [0]; OutKeys [0]; OutKeys [1]].
+Proof. repeat split; vm_compute; reflexivity. Qed.
+
+(** the hypotheses of the _any_calls theorems are satisfiable with a failing
+    call among [calls]: "goos,.unit" rejected, "/a" accepted; lx_a and lx_c differ
+    in goos-free parts only where stated *)
+Example C08_any_calls_example :
+  let calls := [(false, [ex_goos; mkPS key_unit (bs "first") []]); (false, [ex_a])] in
+  let rest := [OpProject 0 fw_a; OpProject 1 fw_a; OpProject 0 fw_b; OpProject 1 fw_b] in
+  let w0 := fst (run_ops_tx new_world (parse_ops calls ++ [OpResidue])) in
+  filter call_okb calls = [(false, [ex_a])] /\
+  Forall no_parse rest /\ Forall op_wf rest /\
+  snd (run_ops_tx w0 rest) = [OutKeys [0]; OutKeys [0]; OutKeys [0]; OutKeys [1]] /\
+  ~ same_info (pp_cfg (parser_after [(false, [ex_a])])) (pp_full (parser_after [(false, [ex_a])])) fw_a fw_b.
+Proof.
+  cbv zeta. split; [vm_compute; reflexivity|]. split; [repeat constructor|]. split; [solve_wf|].
+  split; [vm_compute; reflexivity|]. intros [_ [H _]].
+  assert (Hn : ~ In (bs "goos") (pp_cfg (parser_after [(false, [ex_a])]))) by (vm_compute; tauto).
+  specialize (H _ Hn). vm_compute in H. discriminate H.
 Qed.
